@@ -171,6 +171,17 @@ pub(crate) mod alloc {
 
         /// Compute a FFT, modifying the vector in place.
         fn fft_in_place(&self, coeffs: &mut Vec<BlsScalar>) {
+            // A coefficient vector longer than the domain is a polynomial of
+            // degree >= n. On the domain `X^n = 1`, so its evaluations are
+            // those of its reduction modulo `X^n - 1`: fold the excess
+            // coefficients onto the low ones instead of dropping them.
+            let size = self.size();
+            if coeffs.len() > size {
+                let (low, high) = coeffs.split_at_mut(size);
+                for (i, coeff) in high.iter().enumerate() {
+                    low[i % size] += coeff;
+                }
+            }
             coeffs.resize(self.size(), BlsScalar::zero());
             best_fft(coeffs, self.group_gen, self.log_size_of_group)
         }
